@@ -13,6 +13,7 @@ THEOREMS = ['swap_identity', 'complete_of_swap', 'liou_real', 'liou_one', 'liou_
             'choi_of_unitary', 'choi_of_unitary_quadForm', 'choi_of_unitary_posSemidef',
             'transpose_choi_entries', 'transpose_not_cp', 'cp_verdict_of_nonneg',
             'cp_verdict_false_of_neg', 'superop_source_shape']
+PINS = ['pinGgmExpand']
 GEN_SITES = ['einsum:superoperator_liouville_representation_0',
              'einsum:superoperator_liouville_to_choi_0', 'const:superoperator']
 COMPONENTS = ['liouville', 'choi']
